@@ -82,6 +82,9 @@ fn main() {
             let mut fi = std::io::BufWriter::new(std::fs::File::create(&args[3]).unwrap());
             let mut fo = std::io::BufWriter::new(std::fs::File::create(&args[4]).unwrap());
             let mut fm = std::io::BufWriter::new(std::fs::File::create(&args[5]).unwrap());
+            // progress file (unbuffered, one short line per case BEFORE it is executed): if the implementation does not
+            // terminate on some input, the driver script finds the case that was running
+            let mut fp = std::fs::File::create(format!("{}.progress", &args[3])).unwrap();
             let ex = execs();
             for line in data.lines() {
                 let line = line.trim();
@@ -93,6 +96,7 @@ fn main() {
                 let mut resp: Option<String> = None;
                 // the executor itself runs under catch_unwind: a panic escaping an executor
                 // is a harness bug or an i128 overflow in an oracle, never an agreement
+                let _ = writeln!(fp, "{}", id);
                 let r = wire::guarded(|| {
                     for e in &ex {
                         let mut t2 = Toks::new(line);
